@@ -476,6 +476,14 @@ def level_offsets(c: Ctx, f: Func, summaries: dict[Func, int | None]) -> tuple[d
     cfg = c.cfg(f)
     flags = _flags_of(f)
     once = _once_only(f, flags)
+    # flags whose falsy assignments are all the constant None (so that `is None` <=> falsy)
+    none_flags = set()
+    for fl_ in flags:
+        vals = [n_.value for n_ in own_nodes(f.node) if isinstance(n_, (ast.Assign, ast.AnnAssign)) and n_.value is not None and any(
+            isinstance(x_, ast.Name) and x_.id == fl_ and isinstance(x_.ctx, ast.Store)
+            for t_ in (n_.targets if isinstance(n_, ast.Assign) else [n_.target]) for x_ in ast.walk(t_))]
+        if all((isinstance(v_, ast.Constant) and v_.value is None) or _lit_truth(v_) is True for v_ in vals):
+            none_flags.add(fl_)
     sc = c.tf.scope(f)
     problems: list[str] = []
 
@@ -493,6 +501,12 @@ def level_offsets(c: Ctx, f: Func, summaries: dict[Func, int | None]) -> tuple[d
         if n.kind == "test":
             if isinstance(a, ast.Name) and a.id in flags and label in ("T", "F"):
                 if (label == "T") != (a.id in fl):
+                    return []
+            # `flag is None` / `flag is not None` for a flag whose falsy values are all None and whose truthy values are not
+            if isinstance(a, ast.Compare) and len(a.ops) == 1 and isinstance(a.left, ast.Name) and a.left.id in flags and label in ("T", "F") \
+                    and isinstance(a.comparators[0], ast.Constant) and a.comparators[0].value is None and a.left.id in none_flags:
+                is_none = (label == "T") == isinstance(a.ops[0], (ast.Is, ast.Eq))
+                if is_none == (a.left.id in fl):
                     return []
             if id(a) in once and label == "T" and once[id(a)] in fl:
                 return []
